@@ -1146,6 +1146,11 @@ pub fn run(ctx: &mut Ctx, eng: &mut dyn Engine) {
                 if tl <= k + 1 {
                     continue;
                 }
+                // keep the number of symbols (hence the partition): otherwise the receiver drops a whole symbol in the MIDDLE of the
+                // stream, which is corruption, not truncation (the ideal decompressor of the driver only knows prefixes)
+                if (tl - k + 15) / 16 != (tl + 15) / 16 {
+                    continue;
+                }
                 // hand-written FDT instance first: Transfer-Length k bytes short, real Content-Length, then the genuine packets
                 let cenc_name = match cenc {
                     Cenc::Gzip => "gzip",
@@ -1165,6 +1170,37 @@ pub fn run(ctx: &mut Ctx, eng: &mut dyn Engine) {
                 h.push(None);
                 let cc = CaseCfg { expect_mode: None, ..Default::default() };
                 r.case("cenc-truncated", &cc, &sess, &[], &h, false);
+            }
+        }
+    }
+
+    // ---- 16. content encoding announced ONLY in the FDT (RFC 6726 way, no EXT_CENC), FTI in-band, no Content-MD5, and the first j
+    //           packets of the object arrive BEFORE the FDT instance (FDT overtaken / receiver joining mid-carousel): the object
+    //           must still be decompressed - byte-exactness oracle on (seeded change C03-1: cenc defaulted to Null by the first packet)
+    for &cenc in &[Cenc::Zlib, Cenc::Deflate, Cenc::Gzip] {
+        for size in [60usize, 900] {
+            let oti = scheme_oti(0, 16, 4, 0, true);
+            let spec = ObjSpec { content: content(&mut rng, size), cenc, inband_cenc: false, md5: false, oti: None, transfers: 1 };
+            let sess = match make_session(&oti, &[spec], 1, 1) {
+                Some(s) => s,
+                None => continue,
+            };
+            let is_obj = |raw: &Vec<u8>| alc::parse_alc_pkt(raw).map(|p| p.lct.toi != 0).unwrap_or(false);
+            let obj: Vec<Vec<u8>> = sess.pkts.iter().filter(|raw| is_obj(raw)).cloned().collect();
+            let fdt: Vec<Vec<u8>> = sess.pkts.iter().filter(|raw| !is_obj(raw)).cloned().collect();
+            if obj.is_empty() || fdt.is_empty() {
+                continue;
+            }
+            for j in [1usize, obj.len() / 2, obj.len()] {
+                let j = j.clamp(1, obj.len());
+                let mut h: Vec<Option<Vec<u8>>> = obj[..j].iter().cloned().map(Some).collect();
+                h.extend(fdt.iter().cloned().map(Some));
+                h.extend(obj[j..].iter().cloned().map(Some));
+                // and once more the first packet (duplicate after the FDT)
+                h.push(Some(obj[0].clone()));
+                h.push(None);
+                r.ctx.count("cenc-fdt-late");
+                r.case("cenc-fdt-late", &dflt, &sess, &[], &h, false);
             }
         }
     }
